@@ -117,6 +117,7 @@ def extract(config="A", manifest=None, package="cozy-chess", repo=None, quiet=Tr
 
 
 def _prune(keep=10):
+    keep = int(os.environ.get("CVA_CACHE_KEEP", keep))
     try:
         ents = [os.path.join(CACHE, d) for d in os.listdir(CACHE)]
         ents = [e for e in ents if os.path.isdir(e)]
